@@ -315,12 +315,13 @@ def run(ctx, scratch):
             grad_res.append(r)
             if 'ok' not in r:
                 ctx.violation('activation.gradient', 'gradient raised', case=g, expected='a matrix', observed=r,
-                              activation=g['name'], channels=ch)
+                              activation=g['name'], channels=ch, kind='raised')
                 continue
             if not fd_mat_close(r['ok']['gradient'], r['ok']['fd']):
                 ctx.violation('activation.gradient', 'gradient(signal, direction) is not the Jacobian-transpose product '
                               '(central finite differences of the implementation\'s own output)', case=g,
-                              expected=r['ok']['fd'], observed=r['ok']['gradient'], activation=g['name'], channels=ch)
+                              expected=r['ok']['fd'], observed=r['ok']['gradient'], activation=g['name'], channels=ch,
+                              kind='finite_difference')
         loss_cases = []
         for name in ('CrossEntropy', 'BinaryCrossEntropy'):
             for ch in (1, 2, 3, 4):
@@ -345,14 +346,14 @@ def run(ctx, scratch):
             loss_res.append(r)
             if 'ok' not in r:
                 ctx.violation(g['name'] + '.loss_gradient', 'loss_gradient raised', case=g, expected='a matrix', observed=r,
-                              loss=g['name'], channels=chan)
+                              loss=g['name'], channels=chan, kind='raised')
                 continue
             if not fd_mat_close(r['ok']['gradient'], r['ok']['fd']):
                 ctx.violation(g['name'] + '.loss_gradient',
                               'loss_gradient is not n times the derivative of the mean loss with respect to the signal '
                               '(central finite differences of the implementation\'s own loss)', case=g,
                               expected=r['ok']['fd'], observed=r['ok']['gradient'], loss=g['name'], channels=chan,
-                              n_channels=ch)
+                              n_channels=ch, kind='finite_difference')
 
         # correspondence of the coded closed forms: the modelled formulas evaluated in Coq on the
         # implementation's own output must reproduce the implementation's gradient
@@ -512,7 +513,8 @@ def run(ctx, scratch):
                               expected=[n, o], observed=[len(outm), len(outm[0]) if outm else 0], **fields)
             if 'proba_err' in a:
                 ctx.violation('predict_proba', 'predict_proba raised %s: %s' % (a['proba_err'], a.get('proba_msg')), case=args,
-                              expected='probability rows summing to 1', observed=a['proba_err'], **fields)
+                              expected='probability rows summing to 1', observed=a['proba_err'], kind='raised',
+                              error=a['proba_err'], **fields)
             else:
                 pr = a['proba']
                 width = 2 if o == 1 else o
@@ -520,7 +522,8 @@ def run(ctx, scratch):
                                            all(-1e-12 <= x <= 1 + 1e-12 for x in row) for row in pr)
                 if not okp:
                     ctx.violation('predict_proba', 'probability rows do not sum to 1', case=args, expected='rows summing to 1',
-                                  observed=pr, row_sums=[sum(row) if isinstance(row, list) else None for row in pr], **fields)
+                                  observed=pr, row_sums=[sum(row) if isinstance(row, list) else None for row in pr],
+                                  kind='row_sums', **fields)
             same = a['labels'] == b['labels'] and mat_close(a['output'], b['output'], 1e-12) and \
                 a.get('proba_err') == b.get('proba_err') and \
                 ('proba' not in a or mat_close(a['proba'], b['proba'], 1e-12)) and a['epochs'] == b['epochs']
